@@ -208,6 +208,40 @@ CHECKS = {
             "transform is not bit-symmetric (measured jitter); the strict 1 ppm level is reported as information; err_pa of circular fits not compared.",
             "TLA+/TLC model checking of the filter algebra + TLC batch trace validation of run groups (Both / PosOnly / NegOnly / negated input)",
             "4/C13"),
+    "C06": ("exploration",
+            "BaneMaps.tla defines the mask rule (blank copied / far pixels finite / no blank in, no blank out) on integer grids and the shape, range, "
+            "constant, add-constant, scale and stationary relations in fixed point (8 ppm of the value range); TLC proves the mask rule for the "
+            "propagation design on all 2..6 x 2..6 images with <= 2 blank blocks and for the node/box/stripe design of sigma_filter on <= 5x5 images "
+            "with up to 3 stripes (two non-vacuity jobs must fail) and checks that the configuration subset run is pairwise covering for the lattice "
+            "grid x box x cores x stripes x {2-D, 3-D, 4-D, BSCALE float, BSCALE int16} x mask x compressed. Real filter_image runs (20 % through the "
+            "CLI) on exact dyadic-lattice images (A, A+c, k.A per configuration; DC offsets up to 1e4 sigma, NaN/inf blocks, gradients, sources, "
+            "stripes > 1) are projected to fixed-point scalars, blank-pixel lists and z-scores and judged by TLC (BaneMaps_Trace).",
+            "images >= 2x2; square grid/box, BZERO = 0; stationary clause for box >= 16 and <= 2400 pixels (6 standard errors); compressed files get the "
+            "value clauses only; a run unfinished after 150 s counts as not returning.",
+            "TLA+ mask-rule theorems model-checked with TLC + TLC trace validation of relation groups of real BANE runs over a TLC-checked pairwise-covering configuration subset",
+            "4/C06"),
+    "C14": ("exploration",
+            "AeResRel.tla states the algebra (Model is a bag homomorphism, off-image sources inert, Subtract after Add = identity, blank set = union of "
+            "per-source threshold sets) and the relations over fixed-point records (independent render <= 1e-4 of the peak to 5 sigma, additivity / "
+            "order / sum of singles <= 1e-6, add-then-subtract <= 1e-6, exact boolean mask grids, closed loop <= 1e-3); MC_AeResConfig lets TLC check "
+            "the algebra on an Add/Subtract/Mask machine and enumerate the 216-element option lattice (op x frac/sigma x column renaming x projection "
+            "x catalogue shape class). Every element (API and CLI, files read back), seeded off-lattice runs, single-source and subset records and "
+            "find -> save -> subtract loops are validated by TLC (AeRes_Trace). The independent renderer is harness/synth.py (astropy).",
+            "half-pixel border band may be rendered or ignored; negative-source mask accepted in signed or magnitude reading; <= 7 sources per catalogue; "
+            "nothing claimed beyond 5 sigma; closed loop with docov off.",
+            "TLC-checked abstract algebra + TLC-enumerated option lattice + relational trace validation by TLC on fixed-point / boolean-grid projections of real AeRes runs",
+            "4/C14"),
+    "C19": ("model_checking",
+            "Regroup.tla: Groups = connected components of the lattice Close relation, flux-ordered labels with free ties; TLC proves for every multiset "
+            "of <= 4 points (sets of 5 in thorough) on a 3x4 lattice x flux pattern x linking-length class that the groups form a partition, coincide "
+            "with chain-connectedness, are invariant under all n! row permutations and admit unique (island, source) labels, and emits every case. "
+            "Each case is replayed on the real regroup_dbscan at four sky anchors (equator, RA wrap, dec -60, next to the pole) with the linking length "
+            "converted by the real AeReg / source_finder callers, plus seeded catalogues of 1..500 sources, threshold probes, the AeReg CLI, the "
+            "priorized-fit regroup step, the elliptical regroup and resize; TLC validates every observation (Regroup_Trace).",
+            "true separations computed by the harness (Vincenty) and handed to TLC as integers; no pair within 1e-6 of the linking length; resize only for "
+            "sources with finite psf.",
+            "TLA+ model (MC_Regroup) checked by TLC + replay of TLC-enumerated cases on regroup_dbscan + TLC trace validation",
+            "4/C19"),
 }
 
 NOT_YET = "check not built yet in this round of construction (planned, see DESIGN.md section 4)"
